@@ -140,6 +140,7 @@ class MutSet(W.SpecSet):
         import struct as st
         for i, f in enumerate(self.files):
             d = self.decl.get(f["name"], {})
+            f["skip_ifsc"] = d.get("no_ifsc", False)
             f["d_len"] = d.get("len", len(f["data"]))
             f["d_name"] = d.get("name", f["name"])
             f["d_hash"] = d.get("hash", f["hash"])
@@ -199,7 +200,7 @@ def archive(ms, exps, index_drop=(), index_dup=(), vol_drop=(), vol_dup=(), recv
         for f in ms.files:
             if "fdesc" not in drop:
                 pk.append(ms.p_fdesc(f))
-            if "ifsc" not in drop:
+            if "ifsc" not in drop and not f.get("skip_ifsc"):
                 pk.append(ms.p_ifsc(f))
         pk += recvs
         for kind in dup:
